@@ -355,6 +355,42 @@ def run(rep, tier, seed):
             elif not sol.stats.succeed:
                 fails.append((case, f"{solname}: did not converge from inside the basin of a root of magnitude 1e4 (max|F| = {r!r}, "
                                     f"{np.max(np.abs(yb - rootb)):.3g} from the root)"))
+    # (d) a generated model (literal coefficients: the generated code keeps the dtype of y) started at its root stored in single
+    #     precision, and the same model with the dense Jacobian of made_numerical's default
+    try:
+        from Solverz import Model, Var, Eqn, made_numerical
+        def gen(sparse):
+            m = Model(); m.x = Var("x", 1.0); m.z = Var("z", 1.0)
+            m.e1 = Eqn("e1", 3 * m.x + m.z - 3.63); m.e2 = Eqn("e2", m.x * m.z + 2 * m.z - 2.1384)
+            eqs, y0 = quiet(m.create_instance)
+            return quiet(made_numerical, eqs, y0, sparse=sparse, make_hvp=sparse)
+        rootg = np.array([0.97, 0.72])
+        for solname, solver in solvers.items():
+            nruns += 1
+            nd_g = gen(True)
+            start32 = rootg.astype(np.float32)
+            case = dict(problem="3x + z - 3.63, x z + 2 z - 2.1384 (generated code)", start="root stored as float32", tol=1e-10, solver=solname)
+            try:
+                sol = quiet(solver, nd_g, start32.copy(), Opt(ite_tol=1e-10))
+            except Exception:  # noqa
+                continue
+            yg = np.asarray(sol.y, dtype=np.float64)
+            r = maxabs(np.array([3 * yg[0] + yg[1] - 3.63, yg[0] * yg[1] + 2 * yg[1] - 2.1384]))
+            if bool(sol.stats.succeed) != bool(r < 1e-10):
+                fails.append((case, f"{solname}: succeed={sol.stats.succeed} but max|F(y)| = {r!r} (in double precision) at the returned point, tol = 1e-10"))
+        for solname in ("nr_method", "continuous_nr", "lm"):
+            nruns += 1
+            case = dict(problem="the same model with a dense Jacobian (made_numerical default)", start="0.1 from the root", tol=1e-8, solver=solname)
+            try:
+                sol = quiet(solvers[solname], gen(False), rootg + 0.1, Opt(ite_tol=1e-8))
+                yg = np.asarray(sol.y, dtype=np.float64)
+                r = maxabs(np.array([3 * yg[0] + yg[1] - 3.63, yg[0] * yg[1] + 2 * yg[1] - 2.1384]))
+                if not (sol.stats.succeed and r < 1e-8):
+                    fails.append((case, f"{solname}: did not converge from inside the basin on a dense-Jacobian model (succeed={sol.stats.succeed}, max|F| = {r!r})"))
+            except Exception as ex:  # noqa
+                fails.append((case, f"{solname}: raised {type(ex).__name__} on a model with a dense Jacobian: {str(ex)[:80]}"))
+    except Exception as ex:  # noqa
+        rep.notes.append(f"generated-model probe: {type(ex).__name__}: {str(ex)[:100]}")
     # (c) a kink of a Saturation between the start and the root (mildly non-smooth): recorded finding for sicnm
     sat = lambda v, lo, hi: np.minimum(np.maximum(v, lo), hi)
     dsat = lambda v, lo, hi: 1.0 if lo < v < hi else 0.0
